@@ -35,7 +35,7 @@ func (j *jsonSubProto) Version() (byte, string) {
 	return j.id, j.name
 }
 
-const format = `{"seq":%d,"mtype":%d,"serviceMethod":%q,"status":%q,"meta":%q,"bodyCodec":%d,"body":"%s","xferPipe":%s}`
+const format = `{"seq":%d,"mtype":%d,"serviceMethod":"%s","status":%q,"meta":%q,"bodyCodec":%d,"body":"%s","xferPipe":%s}`
 
 // Pack writes the Message into the connection.
 // NOTE: Make sure to write only once or there will be package contamination!
@@ -64,7 +64,7 @@ func (j *jsonSubProto) Pack(m erpc.Message) error {
 	s := fmt.Sprintf(format,
 		m.Seq(),
 		m.Mtype(),
-		m.ServiceMethod(),
+		escapeBody(goutil.StringToBytes(m.ServiceMethod())),
 		m.Status(true).QueryString(),
 		m.Meta().QueryString(),
 		m.BodyCodec(),
